@@ -30,7 +30,7 @@ TECHNIQUE = "grammar-based design generation with fault injection; oracle = acce
 
 DEFECTS = ["double_call", "recursion", "cyclic_priority", "single_caller", "dependent_conflict"]
 VALID = ["valid_alternatives", "valid_nonexclusive_repeat", "none", "none"]
-SILENT = ["silent_single_caller_one_transaction", "silent_nonexclusive_with_exclusive_callee"]
+SILENT = ["silent_single_caller_one_transaction"]
 
 
 def budget(tier):
@@ -42,7 +42,7 @@ def strategy(draw, tier="quick"):
     base = draw(gen_spec(allow_rels=True, allow_rdep=True, max_space=1, nvals=1))
     base["vals"] = []
     kind = draw(st.sampled_from(DEFECTS + VALID + SILENT))
-    return {"base": base, "inject": kind, "variant": draw(st.integers(0, 5)), "pick": draw(st.integers(0, 50))}
+    return {"base": base, "inject": kind, "variant": draw(st.integers(0, 7)), "pick": draw(st.integers(0, 50))}
 
 
 def _m(name, mod=0, **kw):
@@ -77,17 +77,30 @@ def inject(case):
         return spec, "ok", "none"
     if kind == "double_call":
         B.insert(0, _m("x9"))
-        if v % 3 == 0:
+        if v % 4 == 0:
             B.append(_t("tx", [_call("x9"), _call("x9", en=True)]))
             label += ":same_path"
-        elif v % 3 == 1:
+        elif v % 4 == 1:
             B.append(_t("tx", [_alts(v % 2, [[_call("x9")]]), _alts((v // 2) % 3, [[_call("x9")], []])]))
             label += ":parallel_structures"
-        else:
+        elif v % 4 == 2:
             B.insert(1, _m("d0", stmts=[_call("x9")], nonex=bool(v & 1)))
             B.insert(2, _m("d1", stmts=[_call("x9")]))
             B.append(_t("tx", [_call("d0"), _alts(v % 3, [[_call("d1")], []])]))
             label += ":diamond"
+        else:
+            # the exclusive method is reached twice through ONE nonexclusive method that is called twice (in a row,
+            # in parallel structures, or through two intermediates): still two calls of x9 on non-exclusive paths
+            B.insert(1, _m("q1", nonex=True, stmts=[_call("x9")]))
+            if v < 2:
+                B.append(_t("tx", [_call("q1"), _call("q1", en=True)]))
+            elif v < 4:
+                B.append(_t("tx", [_alts(0, [[_call("q1")]]), _alts(v % 3, [[_call("q1")], []])]))
+            else:
+                B.insert(2, _m("d0", stmts=[_call("q1")], nonex=True))
+                B.insert(3, _m("d1", stmts=[_call("q1")]))
+                B.append(_t("tx", [_call("d0"), _call("d1")]))
+            label += ":via_nonexclusive_method"
         return spec, "raise", label
     if kind == "recursion":
         if v % 3 == 0:
@@ -163,11 +176,6 @@ def inject(case):
     if kind == "silent_single_caller_one_transaction":
         B.insert(0, _m("s0", single=True))
         B.append(_t("s_a", [_alts(0, [[_call("s0")], [_call("s0")]])]))
-        return spec, "either", label
-    if kind == "silent_nonexclusive_with_exclusive_callee":
-        B.insert(0, _m("x9"))
-        B.insert(1, _m("q1", nonex=True, stmts=[_call("x9")]))
-        B.append(_t("tx", [_call("q1"), _call("q1")]))
         return spec, "either", label
     raise AssertionError(kind)
 
